@@ -1,0 +1,146 @@
+//go:build verif
+// +build verif
+
+package index
+
+import (
+	"sync/atomic"
+
+	"github.com/marekgalovic/anndb/math"
+	uuid "github.com/satori/go.uuid"
+)
+
+// VerifYield, when set by the verification harness before any goroutine uses
+// the index, is called at the marked points of Insert / Remove.
+var VerifYield func(point string)
+
+func verifYield(point string) {
+	if f := VerifYield; f != nil {
+		f(point)
+	}
+}
+
+// VerifLink is one outgoing link of a vertex.
+type VerifLink struct {
+	To        uuid.UUID
+	Distance  float32 // distance cached on the link
+	ToDeleted bool    // the linked vertex object is tombstoned
+	ToCurrent bool    // the linked vertex object is the one the id currently maps to
+}
+
+type VerifVertex struct {
+	Id       uuid.UUID
+	Level    int
+	Vector   math.Vector
+	Metadata Metadata
+	Deleted  bool
+	Links    [][]VerifLink // per level
+}
+
+type VerifConfig struct {
+	SearchAlgorithm  int
+	LevelMultiplier  float32
+	Ef               int
+	EfConstruction   int
+	M, MMax, MMax0   int
+	ExtendCandidates bool
+	KeepPruned       bool
+}
+
+// VerifDump is a read-only snapshot of the index taken under the locks the
+// index itself uses (shard read-locks, per-level edge read-locks).
+type VerifDump struct {
+	Size              uint
+	HasEntrypoint     bool
+	Entrypoint        uuid.UUID
+	EntrypointLevel   int
+	EntrypointDeleted bool
+	EntrypointInMap   bool // the entry point object is the one its id maps to
+	Vertices          map[uuid.UUID]*VerifVertex
+	Len               uint64 // raw counter
+	RawBytesSize      uint64 // raw counter (vertex data only)
+	Config            VerifConfig
+}
+
+func (this *Hnsw) VerifConfig() VerifConfig {
+	c := this.config
+	return VerifConfig{
+		SearchAlgorithm: int(c.searchAlgorithm), LevelMultiplier: c.levelMultiplier,
+		Ef: c.ef, EfConstruction: c.efConstruction, M: c.m, MMax: c.mMax, MMax0: c.mMax0,
+		ExtendCandidates: c.heuristicExtendCandidates, KeepPruned: c.heuristicKeepPruned,
+	}
+}
+
+func (this *Hnsw) verifCurrent(v *hnswVertex) bool {
+	m, mu := this.getVerticesShard(v.id)
+	mu.RLock()
+	defer mu.RUnlock()
+	return m[v.id] == v
+}
+
+func (this *Hnsw) verifVertex(v *hnswVertex) *VerifVertex {
+	out := &VerifVertex{
+		Id: v.id, Level: v.level, Vector: v.vector, Metadata: v.metadata,
+		Deleted: v.isDeleted(), Links: make([][]VerifLink, len(v.edges)),
+	}
+	for l := range v.edges {
+		v.edgeMutexes[l].RLock()
+		type pair struct {
+			n *hnswVertex
+			d float32
+		}
+		pairs := make([]pair, 0, len(v.edges[l]))
+		for n, d := range v.edges[l] {
+			pairs = append(pairs, pair{n, d})
+		}
+		v.edgeMutexes[l].RUnlock()
+		for _, p := range pairs {
+			if p.n == nil {
+				out.Links[l] = append(out.Links[l], VerifLink{Distance: p.d, ToDeleted: true})
+				continue
+			}
+			out.Links[l] = append(out.Links[l], VerifLink{
+				To: p.n.id, Distance: p.d, ToDeleted: p.n.isDeleted(), ToCurrent: this.verifCurrent(p.n),
+			})
+		}
+	}
+	return out
+}
+
+func (this *Hnsw) VerifDump() *VerifDump {
+	d := &VerifDump{
+		Size:         this.size,
+		Vertices:     make(map[uuid.UUID]*VerifVertex),
+		Len:          atomic.LoadUint64(&this.len),
+		RawBytesSize: atomic.LoadUint64(&this.bytesSize),
+		Config:       this.VerifConfig(),
+	}
+	if ep := (*hnswVertex)(atomic.LoadPointer(&this.entrypoint)); ep != nil {
+		d.HasEntrypoint = true
+		d.Entrypoint = ep.id
+		d.EntrypointLevel = ep.level
+		d.EntrypointDeleted = ep.isDeleted()
+		d.EntrypointInMap = this.verifCurrent(ep)
+	}
+	for i := range this.vertices {
+		this.verticesMu[i].RLock()
+		vs := make([]*hnswVertex, 0, len(this.vertices[i]))
+		for _, v := range this.vertices[i] {
+			vs = append(vs, v)
+		}
+		this.verticesMu[i].RUnlock()
+		for _, v := range vs {
+			d.Vertices[v.id] = this.verifVertex(v)
+		}
+	}
+	return d
+}
+
+// VerifGetItem returns vector, metadata and level of a stored item.
+func (this *Hnsw) VerifGetItem(id uuid.UUID) (math.Vector, Metadata, int, bool) {
+	v, err := this.GetVertex(id)
+	if err != nil {
+		return nil, nil, 0, false
+	}
+	return v.vector, v.metadata, v.level, true
+}
